@@ -139,7 +139,7 @@ void bn_set_bit(bn_t a, uint_t bit, int value) {
 
 	RLC_RIP(bit, d, bit);
 
-	bn_grow(a, d);
+	bn_grow(a, d + 1);
 
 	if (value == 1) {
 		a->dp[d] |= ((dig_t)1 << bit);
